@@ -71,6 +71,17 @@ def _prepare(group):
     src = feats + src + "\n#[cfg(kani)]\nmod verif_harness { include!(\"%s\"); }\n" % os.path.join(g["dir"], "harness.rs")
     with open(root, "w") as f:
         f.write(src)
+    # visibility-only substitutions (so the harness module can name private codec traits)
+    for sub in g.get("subst", []):
+        p = os.path.join(cdir, sub["file"])
+        with open(p) as f:
+            s_ = f.read()
+        s2, n = re.subn(sub["regex"], sub["repl"], s_, count=1, flags=re.M)
+        if n != 1:
+            shutil.rmtree(scratch, ignore_errors=True)
+            raise RuntimeError("subst anchor not found: %s in %s" % (sub["regex"], sub["file"]))
+        with open(p, "w") as f:
+            f.write(s2)
     # contract injection: insert attribute lines above `fn name` in a named file
     for inj in g.get("inject", []):
         p = os.path.join(cdir, inj["file"])
@@ -86,7 +97,7 @@ def _prepare(group):
     return scratch, cdir
 
 
-_check_re = re.compile(r"^Check (\d+): (\S+)\s*\n\s*- Status: (\w+)\s*\n\s*- Description: \"(.*)\"\s*\n\s*- Location: (.*)$", re.M)
+_check_re = re.compile(r"^Check (\d+): (.+?)\s*\n\s*- Status: (\w+)\s*\n\s*- Description: \"(.*)\"\s*\n\s*- Location: (.*)$", re.M)
 
 
 def _parse(output, names):
@@ -173,8 +184,9 @@ def run_group(group, tier="quick", seed=0):
             outs = list(ex.map(run_bucket, range(jobs)))
         text = "\n".join(o for o, _ in outs)
         rc = -9 if any(r == -9 for _, r in outs) else max(r for _, r in outs)
-        os.makedirs(os.path.join(VERIF, ".build", "kani"), exist_ok=True)
-        with open(os.path.join(VERIF, ".build", "kani", group + ".log"), "w") as f:
+        bdir = os.environ.get("VERIF_BUILD", os.path.join(VERIF, ".build"))
+        os.makedirs(os.path.join(bdir, "kani"), exist_ok=True)
+        with open(os.path.join(bdir, "kani", group + ".log"), "w") as f:
             f.write(text)
         parsed = _parse(text, [h["name"] for h in wanted])
         if rc == -9:
